@@ -217,6 +217,39 @@ def run():
             else:
                 continue
             chk.violation(sig, {"case": case, "ops": e["ops"], "quiet": cfgq[1], "color": cfgq[2]}, msg)
+    # 2b. status-setting sweep: many more pairs (incl. the "list of records" shape), each completed canonically under
+    #     all four quiet / colour settings of the default printer and after listing the sub-edits first
+    sweep_cases = corpus.gen_cases("records", 260 if t == "quick" else 3000, 5) + corpus.gen_cases("random", 200 if t == "quick" else 3000, 9) \
+        + corpus.gen_cases("skewed", 60 if t == "quick" else 600, 9)
+    sweep_hists = [([], True, True), ([], True, False), ([], False, False), (["edits"], True, True), (["edits"], False, True),
+                   (["sub.tighten", "bounds"], True, False)]
+    sweep_jobs = [(c, 5 if c[3] is not None and i < (260 if t == "quick" else 3000) else 9, sweep_hists) for i, c in enumerate(sweep_cases)]
+    with ctx.Pool(min(16, os.cpu_count() or 4), initializer=_init, maxtasksperchild=200) as pool:
+        sweep_results = pool.map(_job, sweep_jobs, chunksize=4)
+    straces = [{"ev": [{"ops": e["ops"], "raised": e["raised"], "out": e["out"]} for e in events]} for events in sweep_results]
+    sverdicts, sst = tlc.validate_traces("EditApiTrace", straces, constants={"Ops": {"x"}, "MaxOps": 1000, "Results": {"r"}},
+                                         name="EditApiTrace-sweep")
+    chk.add_trace_stats(sst, "EditApiTrace", sum(len(tr["ev"]) for tr in straces))
+    for i, ((case, salt, hs), events) in enumerate(zip(sweep_jobs, sweep_results), 1):
+        for k, e in enumerate(events):
+            chk.count(("sweep", i, k), nontrivial=k > 0)
+        v = sverdicts[i]
+        if v["v"] == "ACCEPT":
+            continue
+        ref = next((e["out"] for e in events if not e["raised"]), "")
+        for k, e in enumerate(events):
+            cfgq = (([None] + hs)[k] or (None, False, True))
+            if e["raised"]:
+                sig = {"clause": "a-call-raised-an-internal-error", "exc": e["exc"].split(":")[0]}
+                msg = "history %s (quiet=%s) on %s raised %s" % (e["ops"], cfgq[1], json.dumps(case)[:300], e["exc"])
+            elif e["out"] != ref:
+                sig = {"clause": "result-depends-on-how-the-edit-api-was-driven", "kind": case[0], "setting": "quiet" if cfgq[1] else "status"}
+                msg = "history %s (quiet=%s, colour=%s) on %s ends with cost/script %s, the reference (status on) with %s" % (
+                    e["ops"], cfgq[1], cfgq[2], json.dumps(case)[:300], e["out"], ref)
+            else:
+                continue
+            chk.violation(sig, {"case": case, "ops": e["ops"], "quiet": cfgq[1], "color": cfgq[2], "salt": salt}, msg)
+    chk.extra["status_setting_sweep_pairs"] = len(sweep_jobs)
     # 3. the mechanism model of EditDistance (spec/Levenshtein.tla): model-checked, and its simulated behaviours -
     #    environments of scripted cells x orders of public operations - replayed on the real class
     from props import _lev
@@ -311,7 +344,8 @@ def replay(path):
     corpus._quiet_env()
     chk = Check("C05", "model_checking")
     case = tuple(rp["case"])
-    events = [run_history(case, 5, [], False, True), run_history(case, 5, rp["ops"], rp["quiet"], rp["color"])]
+    salt = rp.get("salt", 5)
+    events = [run_history(case, salt, [], False, True), run_history(case, salt, rp["ops"], rp["quiet"], rp["color"])]
     traces = [{"ev": [{"ops": e["ops"], "raised": e["raised"], "out": e["out"]} for e in events]}]
     verdicts, st = tlc.validate_traces("EditApiTrace", traces, constants={"Ops": {"x"}, "MaxOps": 1000, "Results": {"r"}})
     chk.add_trace_stats(st, "EditApiTrace", 2)
